@@ -334,9 +334,10 @@ def transport_classes():
             self.side = side
             self.connect_script = None  # None or ('ticks', k) / ('time', seconds)
             self.closed_calls = 0
+            self.cx = 0  # index of the connection this transport belongs to
 
         async def connect(self):
-            self.world.ev(self.side, 'transport_connect_begin')
+            self.world.ev(self.side, 'transport_connect_begin', cx=self.cx)
             cs = self.connect_script
             if cs is not None:
                 if cs[0] == 'ticks':
@@ -344,13 +345,13 @@ def transport_classes():
                         await asyncio.sleep(0)
                 elif cs[0] == 'time':
                     await asyncio.sleep(cs[1])
-            self.world.ev(self.side, 'transport_connect_end')
+            self.world.ev(self.side, 'transport_connect_end', cx=self.cx)
 
         async def _tap_gen(self, gen):
             async for frame in gen:
                 s = snap_frame(frame)
                 self.world.last_recv_sid[self.side] = s['sid']
-                self.world.ev(self.side, 'recv', f=s)
+                self.world.ev(self.side, 'recv', f=s, cx=self.cx)
                 yield frame
 
     class TapTCP(TapMixin, TransportTCP):
@@ -360,7 +361,7 @@ def transport_classes():
 
         async def send_frame(self, frame):
             pos = self._writer.bytes_written
-            e = self.world.ev(self.side, 'send', f=snap_frame(frame), tr=id(self))
+            e = self.world.ev(self.side, 'send', f=snap_frame(frame), tr=id(self), cx=self.cx)
             self._writer.capture = cap = []
             try:
                 await TransportTCP.send_frame(self, frame)
@@ -383,7 +384,7 @@ def transport_classes():
 
         async def close(self):
             self.closed_calls += 1
-            self.world.ev(self.side, 'transport_close_call')
+            self.world.ev(self.side, 'transport_close_call', cx=self.cx)
             await TransportTCP.close(self)
 
     class TapMsg(TapMixin, AbstractMessagingTransport):
@@ -402,7 +403,7 @@ def transport_classes():
             self.bytes_written = 0
 
         async def send_frame(self, frame):
-            e = self.world.ev(self.side, 'send', f=snap_frame(frame), tr=id(self))
+            e = self.world.ev(self.side, 'send', f=snap_frame(frame), tr=id(self), cx=self.cx)
             with wrap_transport_exception():
                 if self.fail_writes or self.closed:
                     raise ConnectionResetError('simnet: websocket closed')
@@ -431,7 +432,7 @@ def transport_classes():
 
         async def close(self):
             self.closed_calls += 1
-            self.world.ev(self.side, 'transport_close_call')
+            self.world.ev(self.side, 'transport_close_call', cx=self.cx)
             if not self.closed:
                 self.closed = True
                 self.world.ev(self.side, 'transport_close')
@@ -461,8 +462,9 @@ def transport_classes():
 class Conn:
     """A connection between side 'c' and side 's': two links and two tapped transports."""
 
-    def __init__(self, world, message_mode=False, read_buffer=(1024, 1024), names=('c', 's')):
+    def __init__(self, world, message_mode=False, read_buffer=(1024, 1024), names=('c', 's'), index=0):
         self.world = world
+        self.index = index
         self.message_mode = message_mode
         a, b = names
         self.names = names
@@ -488,6 +490,10 @@ class Conn:
                 self.writer[me] = w
                 self.transport[me] = cls['TapTCP'](world, me, readers[me], w, read_buffer[i])
                 self.link[me].sink = sinks[peer]
+
+    def tag(self):
+        for tr in self.transport.values():
+            tr.cx = self.index
 
     def pending(self):
         return sum(l.pending() for l in self.link.values())
@@ -529,6 +535,30 @@ class Conn:
             for w in self.writer.values():
                 w.fail_writes = True
                 w.unblock()
+
+
+class ConnSet:
+    """All connections of a run; attribute access goes to the current (latest) one, pump() moves bytes on all."""
+
+    def __init__(self):
+        self.conns = []
+
+    @property
+    def cur(self):
+        return self.conns[-1]
+
+    def __getattr__(self, name):
+        return getattr(self.conns[-1], name)
+
+    async def pump(self):
+        moved = False
+        for c in self.conns:
+            if await c.pump():
+                moved = True
+        return moved
+
+    def pending(self):
+        return sum(c.pending() for c in self.conns)
 
 
 async def run_until_quiet(loop, conns, max_iters=5000):
